@@ -99,6 +99,9 @@ type TLogic struct {
 }
 type TGroup struct{ X TExpr }
 
+// TNeg is unary minus applied to a numeric VARIABLE (`-var.i0`).
+type TNeg struct{ X TVar }
+
 func (TLit) texpr()    {}
 func (TVar) texpr()    {}
 func (THdr) texpr()    {}
@@ -108,6 +111,7 @@ func (TRegex) texpr()  {}
 func (TNot) texpr()    {}
 func (TLogic) texpr()  {}
 func (TGroup) texpr()  {}
+func (TNeg) texpr()    {}
 
 type TStmt interface{ tstmt() }
 
@@ -256,6 +260,50 @@ func Count(stmts []TStmt) int {
 	return n
 }
 
+// Flatten lists statements (nested ones included) in pre-order: Flatten(x)[k] has pre-order index k.
+func Flatten(stmts []TStmt) []TStmt {
+	var out []TStmt
+	for _, s := range stmts {
+		out = append(out, s)
+		switch t := s.(type) {
+		case TIf:
+			out = append(out, Flatten(t.Then)...)
+			for _, ei := range t.ElseIfs {
+				out = append(out, Flatten(ei.Body)...)
+			}
+			out = append(out, Flatten(t.Else)...)
+		case TSwitch:
+			for _, c := range t.Cases {
+				out = append(out, Flatten(c.Body)...)
+			}
+		}
+	}
+	return out
+}
+
+// HasRegex reports whether evaluating the expression may run a regex match.
+func HasRegex(x TExpr) bool {
+	switch t := x.(type) {
+	case TRegex:
+		return true
+	case TNot:
+		return HasRegex(t.X)
+	case TGroup:
+		return HasRegex(t.X)
+	case TLogic:
+		return HasRegex(t.L) || HasRegex(t.R)
+	case TCmp:
+		return HasRegex(t.L) || HasRegex(t.R)
+	case TConcat:
+		for _, p := range t.Parts {
+			if HasRegex(p) {
+				return true
+			}
+		}
+	}
+	return false
+}
+
 func (e *Env) pre(idx int, s TStmt) {
 	if !e.TracePre || e.depth > 0 {
 		return
@@ -325,6 +373,20 @@ func (e *Env) Eval(x TExpr) TVal {
 		return v
 	case TGroup:
 		return e.Eval(t.X)
+	case TNeg:
+		v := e.Eval(t.X)
+		switch v.T {
+		case TI:
+			if v.I == math.MinInt64 {
+				e.oor("negation overflow")
+			}
+			v.I = -v.I
+		case TF:
+			v.F = -v.F
+		case TT:
+			v.Ms = -v.Ms
+		}
+		return v
 	case TConcat:
 		var sb strings.Builder
 		for _, p := range t.Parts {
@@ -998,6 +1060,12 @@ func (g *TG) setStmt() TStmt {
 	default:
 		val = g.operand(v.T)
 	}
+	// unary minus on a variable (it must not change the variable it is applied to)
+	if v.T != TS && v.T != TB && (op == "=" || op == "+=" || op == "-=") && r.Intn(6) == 0 {
+		if nv, ok := g.varOf(v.T); ok {
+			val = TNeg{X: nv}
+		}
+	}
 	return TSet{Target: v.Name, T: v.T, Op: op, Val: val}
 }
 
@@ -1487,6 +1555,9 @@ func emitExpr(g *G, x TExpr) {
 		g.t("(", "Group#open", false)
 		emitExpr(g, t.X)
 		g.t(")", "Group#close", false)
+	case TNeg:
+		g.t("-", "Prefix#op", false)
+		g.t(t.X.Name, "Expr#atom", false)
 	case TConcat:
 		for i, p := range t.Parts {
 			if i > 0 && t.Explicit[i] {
